@@ -372,7 +372,7 @@ func propCheck(c Case) (fail string, at int) {
 		}
 		kind, p := w.execOne(o)
 		if kind != K_OK {
-			return fmt.Sprintf("op %d %s with in-range arguments ended with outcome kind %d (1=panic, 2=error)", k, o.Op, kind), k
+			return fmt.Sprintf("op %d %s with in-range arguments ended with outcome kind %d (1=panic, 2=error, 7=did not return)", k, o.Op, kind), k
 		}
 		if len(w.V) != len(sh) {
 			return fmt.Sprintf("op %d %s: number of vectors %d, expected %d", k, o.Op, len(w.V), len(sh)), k
@@ -458,8 +458,8 @@ func removeOp(ops []Op, k int) []Op {
 
 func shrink(c Case) Case {
 	fails := func(ops []Op) bool {
-		if ops == nil {
-			return false
+		if ops == nil || hungTotal >= 3*maxHung {
+			return false // every replay of a hanging history costs one watchdog deadline and leaves a spinning goroutine
 		}
 		f, _ := propCheck(Case{Type: c.Type, Ops: ops})
 		return f != ""
@@ -552,9 +552,11 @@ func hunt(o Opts) {
 	}
 	if !done {
 		rng := NewRng(o.Seed + 7919)
-		for k := 0; k < o.N && !done; k++ {
+		for k := 0; k < o.N && !done && hungTotal < maxHung; k++ {
 			tn := typeNames[k%len(typeNames)]
+			smallMode = k%4 == 3
 			c, _ := genCase(rng.Split(), tn, false, nil)
+			smallMode = false
 			r.Tried++
 			if f, _ := propCheck(c); f != "" {
 				report(c)
